@@ -357,6 +357,8 @@ func applyEdit(root string, e edit) error {
 		return os.Symlink("created-meanwhile", p)
 	case "createdir":
 		return os.Mkdir(p, 0o755)
+	case "createfifo":
+		return syscall.Mkfifo(p, 0o644)
 	}
 	return fmt.Errorf("unknown edit %q", e.Op)
 }
@@ -369,8 +371,21 @@ func runCase(scratch string, tc *tCase) map[string]any {
 	must(err)
 	defer os.RemoveAll(base)
 	root := filepath.Join(base, "root")
+	// staged files: next to the root, or - for the cross-device configuration -
+	// really on another device (/dev/shm) when there is one; otherwise the staged
+	// renames are answered with EXDEV through the hook ("faked")
 	staging := filepath.Join(base, "staging")
-	must(os.Mkdir(staging, 0o755))
+	xdev := "none"
+	if tc.Mode.Exdev {
+		xdev = "faked"
+		if d := otherDeviceDir(base); d != "" {
+			staging, xdev = d, "real"
+			defer os.RemoveAll(d)
+		}
+	}
+	if xdev != "real" {
+		must(os.Mkdir(staging, 0o755))
+	}
 	must(materialise(root, tc.Tree0))
 
 	plan := planFor("", tc.Tree0, tc.Target)
@@ -446,7 +461,7 @@ func runCase(scratch string, tc *tCase) map[string]any {
 		if op == "renameat2" && tc.Mode.Rn2 == "enotsup" {
 			return syscall.ENOTSUP
 		}
-		if tc.Mode.Exdev && (op == "renameat" || op == "renameat2") && strings.HasPrefix(name, stagedPrefix) {
+		if xdev == "faked" && (op == "renameat" || op == "renameat2") && strings.HasPrefix(name, stagedPrefix) {
 			return syscall.EXDEV
 		}
 		return nil
@@ -510,6 +525,7 @@ func runCase(scratch string, tc *tCase) map[string]any {
 		"fired":    fired,
 		"hit":      map[string]any{"op": hit.op, "name": filepath.Base(hit.name)},
 		"hung":     hung,
+		"xdev":     xdev,
 		"post":     post,
 		"scan1":    scan1,
 	}
@@ -970,7 +986,7 @@ func editsFor(tc *tCase, modeOps []string) []edit {
 		if ch.Old == nil && ch.Path != "" {
 			p := vtree.Path(ch.Path)
 			if parent := nodeAt(tc.Tree0, p[:len(p)-1]); parent != nil && parent.K == "dir" && nodeAt(tc.Tree0, p) == nil {
-				for _, op := range []string{"createfile", "createlink", "createdir"} {
+				for _, op := range []string{"createfile", "createlink", "createdir", "createfifo"} {
 					out = append(out, edit{Op: op, Path: p})
 				}
 			}
@@ -1015,6 +1031,8 @@ func editJobs(c *vlib.Ctx, tc *tCase, es []edit, owner bool) []*job {
 	for _, e := range es {
 		if strings.HasPrefix(e.Op, "create") {
 			out = append(out,
+				editJobMode(c, tc, es, tMode{Owner: owner, Exdev: true}),
+				editJobMode(c, tc, es, tMode{Owner: !owner, Exdev: true}),
 				editJobMode(c, tc, es, tMode{Owner: owner, Rn2: "enosys"}),
 				editJobMode(c, tc, es, tMode{Owner: !owner, Rn2: "enotsup"}),
 				editJobMode(c, tc, es, tMode{Owner: owner, Rn2: "enosys", Exdev: true}))
@@ -1187,5 +1205,86 @@ func nodeFromModel(v any) *Node {
 	case "untracked":
 		return nFifo()
 	}
+	return nil
+}
+
+// otherDeviceDir creates a scratch directory on a device other than the one
+// holding dir (under /dev/shm) and returns it, or "" if there is none.
+func otherDeviceDir(dir string) string {
+	var a, b syscall.Stat_t
+	if syscall.Stat(dir, &a) != nil || syscall.Stat("/dev/shm", &b) != nil || a.Dev == b.Dev {
+		return ""
+	}
+	if os.Getenv("VERIF_NO_REAL_XDEV") == "1" {
+		return ""
+	}
+	d, err := os.MkdirTemp("/dev/shm", "verif-transition-")
+	if err != nil {
+		return ""
+	}
+	return d
+}
+
+// ------------------------------------------------------------------ C03 (extra run)
+
+func hasFifo(n *Node) bool { return containsFifo(n) }
+
+// runUnknown emits only the newcomer / unknown-content scenarios: trees holding
+// FIFOs (unknown children of directories being removed, untracked entries at
+// paths the plan creates) and external newcomers (new child, file / link /
+// directory / FIFO at a creation path), each with staging on the same device,
+// on another device, and with renameat2 unavailable; no injected fault.
+func runUnknown(c *vlib.Ctx) error {
+	shapes := []string{"edit", "small"}
+	nRandom := 150
+	if c.Thorough() {
+		shapes = []string{"edit", "small", "wide", "nest", "spine"}
+		nRandom = 2000
+	}
+	modes := []tMode{{}, {Exdev: true}, {Owner: true, Rn2: "enosys"}, {Exdev: true, Owner: true, Rn2: "enotsup"}}
+	var jobs []*job
+	addAll := func(tc *tCase, es []edit) {
+		for _, m := range modes {
+			jb := editJobMode(c, tc, es, m)
+			jb.NonTrivial = true
+			jobs = append(jobs, jb)
+		}
+	}
+	for _, sh := range shapes {
+		for _, tc := range baseCases(sh) {
+			if hasFifo(tc.Tree0) {
+				addAll(tc, nil)
+			}
+			for _, e := range editsFor(tc, nil) {
+				if e.Op == "newchild" || strings.HasPrefix(e.Op, "create") {
+					addAll(tc, []edit{e})
+				}
+			}
+		}
+	}
+	for i := 0; i < nRandom; i++ {
+		tc := randomCase(c)
+		var es []edit
+		for _, e := range editsFor(tc, nil) {
+			if (e.Op == "newchild" || strings.HasPrefix(e.Op, "create")) && c.Rand.Intn(3) == 0 {
+				ok := true
+				for _, x := range es {
+					if comparable(x.Path, e.Path) {
+						ok = false
+					}
+				}
+				if ok && len(es) < 3 {
+					es = append(es, e)
+				}
+			}
+		}
+		if len(es) == 0 && !hasFifo(tc.Tree0) {
+			continue
+		}
+		addAll(tc, es)
+	}
+	runJobs(c, jobs)
+	c.SetExhaustive(true)
+	c.SetExtra("bound", fmt.Sprintf("shapes %v: every pair whose disk tree holds a FIFO, and every pair x every newcomer (new child; file / link / directory / FIFO at a path the plan creates), each with same-device staging, cross-device staging (real /dev/shm when available) and renameat2 unavailable; %d random trees", shapes, nRandom))
 	return nil
 }
